@@ -25,6 +25,7 @@ pub async fn hover(doctx: Sender<DocumentRequest>, params: HoverParams) -> Resul
     let doc_params = params.text_document_position_params;
     if let Some(cursor) = super::doc_cursor(doc_params, doctx).await? {
         if let Some(ident) = &cursor.ident() {
+            let on_context_name = cursor.is_context_name(ident);
             let DocumentCursor { doc, context, .. } = cursor;
             if let Some(entry) = context {
                 match &entry {
@@ -41,7 +42,13 @@ pub async fn hover(doctx: Sender<DocumentRequest>, params: HoverParams) -> Resul
                             global_table: Some(&doc.table),
                             local_table: Some(&p.local_table),
                         };
-                        if let Some(entry) = lookup_table.lookup(&ident.value) {
+                        let entry = if on_context_name {
+                            // the name of the procedure itself is not shadowed by its locals
+                            Some(Entry::Procedure(p))
+                        } else {
+                            lookup_table.lookup(&ident.value)
+                        };
+                        if let Some(entry) = entry {
                             return Ok(Some(create_hover(
                                 &entry,
                                 as_pos_range(&ident.to_range(), &doc.text),
